@@ -350,6 +350,9 @@ def check_presentation_case(case):
     variants.append(('reorder-reversed', (list(reversed(S)), list(reversed(R)), dict(reversed(list(Lab.items())))), ident, {}, None))
     amap = {'p': 'q', 'q': 'p'} if rng.random() < 0.5 else {'p': 'alpha', 'q': 'Beta_2'}
     variants.append(('rename-atoms', (list(S), list(R), {s: [amap.get(a, a) for a in l] for s, l in Lab.items()}), ident, amap, None))
+    # names that the library itself uses for its internal markers must be as good as any other
+    amap2 = {'p': 'fair', 'q': 'fair0'}
+    variants.append(('rename-atoms-to-marker-names', (list(S), list(R), {s: [amap2.get(a, a) for a in l] for s, l in Lab.items()}), ident, amap2, None))
     extra = ['u1', 'u2']
     Rx = list(R) + [('u1', 'u2'), ('u2', 'u1'), ('u2', 'u2')] + ([('u1', S[0])] if rng.random() < 0.5 else [])
     Lx = dict((s, list(l)) for s, l in Lab.items())
@@ -375,7 +378,43 @@ def check_presentation_case(case):
                               '%s changes the answer of %s.modelcheck(Kripke(S=%r,R=%r,L=%r), %s): %r instead of %r (variant structure S=%r,R=%r,L=%r)'
                               % (name, logic, S, R, Lab, trees.to_text(t), r[1:] if r[0] != 'ok' else got, exp, kd2[0], kd2[1], kd2[2]),
                               {'logic': logic, 'variant': name}, (logic, kdata, [t], seed)))
-    return {'fails': fails, 'n': len(ts) * len(variants), 'keys': keys}
+    # with fairness constraints: only the atom renamings are compared (same states in the same order: what the
+    # library computes under fairness is known to depend on the order of the states, KF-C15-1)
+    nf = 0
+    if logic in ('CTL', 'CTLS') and S:
+        Fs = [[set(S)], [set([S[0]])], [set(S[:1]), set(S[-1:])]]
+        for t in ts[:3]:
+            f0 = trees.build(L, t)
+            for F in Fs:
+                base = call(L.modelcheck, K0, f0, None, [set(P) for P in F])
+                if base[0] != 'ok':
+                    continue
+                for name, kd2, smap, am, restrict in variants:
+                    if not name.startswith('rename-atoms'):
+                        continue
+                    nf += 1
+                    t2 = _rename_tree(t, am)
+                    r = call(L.modelcheck, gen.mk_kripke(kd2), trees.build(L, t2), None, [set(P) for P in F])
+                    used = set(a for l in kd2[2].values() for a in l)
+                    absent = any(a not in used for a in _tree_atoms(t2))
+                    if r[0] != 'ok' or r[1] != base[1]:
+                        fails.append(('presentation:' + name + ':fair',
+                                      '%s changes the answer of %s.modelcheck(Kripke(S=%r,R=%r,L=%r), %s, F=%r): %r instead of %r'
+                                      % (name, logic, S, R, Lab, trees.to_text(t), [sorted(P, key=repr) for P in F],
+                                         r[1:] if r[0] != 'ok' else r[1], base[1]),
+                                      {'logic': logic, 'variant': name + ':fair', 'formula_atom_absent_from_labels': absent},
+                                      (logic, kdata, [t], seed)))
+    return {'fails': fails, 'n': len(ts) * len(variants) + nf, 'keys': keys}
+
+
+def _tree_atoms(t):
+    if t[0] == 'ap':
+        return {t[1]}
+    out = set()
+    for c in t[1:]:
+        if isinstance(c, tuple):
+            out |= _tree_atoms(c)
+    return out
 
 
 def battery(seed, n):
